@@ -4,11 +4,13 @@ import (
 	"bytes"
 	"context"
 	"crypto/sha256"
+	"encoding/asn1"
 	"fmt"
 	"testing"
 	"time"
 
 	"github.com/IBM/TSS/mpc/ps"
+	tss "github.com/IBM/TSS/types"
 	"verif/cryptolib"
 	"verif/harness"
 	"verif/world"
@@ -55,6 +57,59 @@ func offPolynomial(be string, dev uint16) cryptolib.SendHook {
 		}
 		return msg
 	}
+}
+
+// componentShifter: the deviator commits to and reveals its own genuine key with ONE component moved
+// off the common polynomial (component "X", "Y0", "Ylast"; BLS: the key itself). Its commitment is
+// held back until its key is known (the instance reveals once it holds the others' commitments),
+// then H(key') and key' are sent in order: commitment and reveal are consistent.
+type componentShifter struct {
+	tss.KeyGenerator
+	be, comp string
+}
+
+func shiftG2(b []byte) []byte {
+	g, err := cryptolib.Curve.NewG2FromBytes(b)
+	if err != nil {
+		return b
+	}
+	g.Add(cryptolib.Curve.GenG2)
+	return g.Bytes()
+}
+
+func (s *componentShifter) mutate(key []byte) []byte {
+	if s.be != "ps" {
+		return shiftG2(key)
+	}
+	var x ps.XYs
+	if _, err := asn1.Unmarshal(key, &x); err != nil || len(x.Ys) == 0 {
+		return key
+	}
+	switch s.comp {
+	case "X":
+		x.X = shiftG2(x.X)
+	case "Y0":
+		x.Ys[0] = shiftG2(x.Ys[0])
+	case "Ylast":
+		x.Ys[len(x.Ys)-1] = shiftG2(x.Ys[len(x.Ys)-1])
+	}
+	return marshalXYs(x)
+}
+
+func (s *componentShifter) Init(parties []uint16, threshold int, sendMsg func(msg []byte, isBroadcast bool, to uint16)) {
+	s.KeyGenerator.Init(parties, threshold, func(msg []byte, isBroadcast bool, to uint16) {
+		if len(msg) > 0 && msg[0] == 2 {
+			return // held back until the key is known
+		}
+		if len(msg) > 0 && msg[0] == 3 {
+			key := s.mutate(msg[1:])
+			h := sha256.Sum256(key)
+			sendMsg(append([]byte{2}, h[:]...), true, 0)
+			sendMsg(append([]byte{3}, key...), true, 0)
+			return
+		}
+		sendMsg(msg, isBroadcast, to)
+	})
 }
 
 func verifySubsetPS(k cfg, shares map[uint16][]byte, c *harness.C) (cl string, err error) {
@@ -178,6 +233,31 @@ func algebraCase(k cfg, reps int) harness.Case {
 
 func offCase(k cfg) harness.Case {
 	return harness.Case{ID: "off-polynomial/" + k.String(), Run: func(c *harness.C) {
+		// one component of the deviator's genuine key off the polynomial, at every position
+		comps := []string{"key"}
+		if k.be == "ps" {
+			comps = []string{"X", "Y0", "Ylast"}
+		}
+		for _, comp := range comps {
+			for _, dev := range cryptolib.IDs(k.n) {
+				c.Exec(fmt.Sprintf("[off-polynomial] %v dev %d component %s", k, dev, comp))
+				_, errs := cryptolib.DKGWrap(k.be, k.n, k.t, 1, nil, func(id uint16, kg tss.KeyGenerator) tss.KeyGenerator {
+					if id == dev {
+						return &componentShifter{KeyGenerator: kg, be: k.be, comp: comp}
+					}
+					return kg
+				}, 20*time.Second)
+				c.Add("executions", 1)
+				c.Add("evaluations", 1)
+				for id, e := range errs {
+					if id != dev && e == nil {
+						c.Violation("off-polynomial-detected", "c18-off-polynomial-component-accepted:"+k.be+":"+comp, fmt.Sprintf("%v: party %d accepted although component %s of the key of party %d is off the common polynomial (commitment and reveal consistent)", k, id, comp, dev), map[string]interface{}{"cfg": k.String(), "dev": dev, "component": comp})
+						break
+					}
+				}
+				c.Outcome(fmt.Sprintf("off|%v|%d|%s", k, dev, comp))
+			}
+		}
 		for _, dev := range cryptolib.IDs(k.n) {
 			c.Exec(fmt.Sprintf("[off-polynomial] %v dev %d", k, dev))
 			_, errs := cryptolib.DKG(k.be, k.n, k.t, 1, offPolynomial(k.be, dev), 20*time.Second)
